@@ -3,6 +3,7 @@ import DaliVerif.Model.Construct
 import DaliVerif.Gen.Commands
 import DaliVerif.Spec.AddressSpec
 import DaliVerif.Spec.EventSpec
+import DaliVerif.Spec.IEC62386
 import DaliVerif.Drivers.Proto
 /-!
 Line protocol for the address / instance codec and the command codec.
@@ -169,7 +170,44 @@ def buildEvent (cls : String) (src : EventSrc) (data : String) : PyRes Cmd :=
       | _ => .error .NotImplementedError
     | none => .error .NotImplementedError
 
+def specRow (q : String) : Option Spec.SpecRow := Spec.commandRows.find? (fun r => r.qualname == q)
+
+/-- the frame the standard's table row prescribes for these arguments (computed
+from `Spec.commandRows` only, never from the regenerated tables) -/
+def specFrame (r : Spec.SpecRow) (args : List String) : Option Nat :=
+  match r.family, args with
+  | "std", [a] => do let a ← parseAddr a; if r.hasparam then none else pure (512 * a.addrByte + 256 + r.code)
+  | "std", [a, p] => do
+      let a ← parseAddr a; let p ← parseNat? p
+      if r.hasparam && p < 16 then pure (512 * a.addrByte + 256 + r.code + p) else none
+  | "dapc", [a, p] => do let a ← parseAddr a; let p ← parseNat? p; pure (512 * a.addrByte + p)
+  | "special", [] => if r.hasparam then none else some (r.code * 256)
+  | "special", [p] => do let p ← parseNat? p; if r.hasparam then pure (r.code * 256 + p) else none
+  | "shortSpecial", ["MASK"] => some (r.code * 256 + 255)
+  | "shortSpecial", [a] => do let a ← parseNat? a; pure (r.code * 256 + 2 * a + 1)
+  | "initialise", ["broadcast"] => some (r.code * 256)
+  | "initialise", ["unaddressed"] => some (r.code * 256 + 255)
+  | "initialise", [a] => do let a ← parseNat? a; pure (r.code * 256 + 2 * a + 1)
+  | "devStd", [a] => do let a ← parseAddr a; pure (131072 * a.addrByte + 65536 + 256 * 0xFE + r.code)
+  | "devInst", [a, i] => do
+      let a ← parseAddr a; let i ← parseInst i
+      pure (131072 * a.addrByte + 65536 + 256 * i.byte + r.code)
+  | "devSpecial0", [] => some (65536 * r.addrByte + 256 * r.instByte)
+  | "devSpecial1", [p] => do let p ← parseNat? p; pure (65536 * r.addrByte + 256 * r.instByte + p)
+  | "devSpecial2", [a, b] => do
+      let a ← parseNat? a; let b ← parseNat? b; pure (65536 * r.addrByte + 256 * a + b)
+  | _, _ => none
+
 def handle : List String → String
+  | ["spec", "row", q] =>
+      match specRow q with
+      | some r => s!"{r.framesize} {r.family} {r.code} {r.addrByte} {r.instByte} {r.hasparam} {r.dt} {r.sendtwice} answer={r.answer}"
+      | none => "none"
+  | "spec" :: "frame" :: q :: args =>
+      match specRow q with
+      | some r => match specFrame r args with | some f => s!"ok {r.framesize} {f}" | none => "bad-op"
+      | none => "none"
+  | ["spec", "rows"] => " ".intercalate (Spec.commandRows.map (·.qualname))
   | "mk" :: "std" :: n :: args =>
       match findStd n, args.mapM parseArg with
       | some c, some args => fmtBuilt (constructStd c args)
